@@ -298,9 +298,15 @@ pub fn install_panic_hook() {
             } else {
                 "<non-string panic>".to_string()
             };
+            if std::thread::panicking() && LAST_PANIC.with(|p| p.borrow().is_some()) {
+                // a second panic while unwinding from the first: the process is about to abort, so
+                // nothing will report these unless it is printed now
+                let first = LAST_PANIC.with(|p| p.borrow().clone()).unwrap_or_default();
+                eprintln!("rv: DOUBLE PANIC (process aborts): first panic at {}: {} -- second panic at {loc}: {msg}", first.0, first.1);
+            }
             LAST_PANIC.with(|p| *p.borrow_mut() = Some((loc, msg)));
             let quiet = QUIET.with(|q| *q.borrow());
-            if !quiet {
+            if !quiet || std::env::var_os("RV_LOUD").is_some() {
                 default(info);
             }
         }));
@@ -374,9 +380,21 @@ where
     }
     let next = AtomicU64::new(0);
     let jobs = rep.jobs.max(1);
+    // when the driver asks for it, every worker keeps the index of the case it is running in a
+    // small file, so that a process abort (double panic, allocation failure) can be attributed
+    let inflight_dir = std::env::var("RV_INFLIGHT_DIR").ok();
     std::thread::scope(|s| {
-        for _ in 0..jobs {
-            s.spawn(|| {
+        for w in 0..jobs {
+            let inflight_dir = inflight_dir.clone();
+            let (next, f, on_panic) = (&next, &f, &on_panic);
+            s.spawn(move || {
+                use std::os::unix::fs::FileExt;
+                let slot = inflight_dir.as_ref().and_then(|d| std::fs::File::create(format!("{d}/w{w}")).ok());
+                let mark = |v: i64| {
+                    if let Some(fh) = &slot {
+                        let _ = fh.write_at(format!("{v:>20}\n").as_bytes(), 0);
+                    }
+                };
                 loop {
                     if rep.stop.load(Ordering::Relaxed) {
                         break;
@@ -389,6 +407,7 @@ where
                         rep.count("cases_skipped_time_cap", 1);
                         continue;
                     }
+                    mark(i as i64);
                     match guarded(|| f(i)) {
                         Ok(()) => {}
                         Err(p) => {
@@ -399,6 +418,7 @@ where
                             }
                         }
                     }
+                    mark(-1);
                     if rep.violation_count() >= 20 {
                         rep.stop.store(true, Ordering::Relaxed);
                     }
